@@ -6,6 +6,7 @@ branch point; `explore()` re-executes the harness with a decision prefix (DART s
 path tree is exhausted or a budget is hit.  Nothing here knows about WNTR.
 """
 import math
+import re
 import time
 import itertools
 from fractions import Fraction
@@ -966,33 +967,67 @@ class SInt(metaclass=_IntMeta):
         return int(x, *a)
 
 
+_SPEC = re.compile(r'^(?:.?[<>=^])?[+\- ]?#?0?(\d+)?,?(?:\.(\d+))?([a-zA-Z%]?)$')
+
+
+def parse_spec(spec):
+    """(kind, digits) of a format spec: kind 'exact' | 'f' (digits after the point) | 'g' (significant digits)"""
+    if spec in ('str', 'repr', 'r', 's', ''):
+        return 'exact', None
+    m = _SPEC.match(spec)
+    if not m:
+        raise HarnessError('format spec %r not modelled for tokens' % spec)
+    width, prec, typ = m.groups()
+    if typ in ('d', 's'):
+        return 'exact', None
+    if typ == '' and prec is None:
+        return 'exact', None            # '{:15}'.format(x) of a float is repr-exact
+    if typ in ('f', 'F', '%'):
+        return 'f', int(prec) if prec is not None else 6
+    if typ in ('g', 'G', ''):
+        nd = int(prec) if prec is not None else 6
+        return 'g', max(nd, 1)
+    if typ in ('e', 'E'):
+        return 'g', (int(prec) if prec is not None else 6) + 1
+    raise HarnessError('format spec %r not modelled for tokens' % spec)
+
+
 def token_value(hit, as_int):
-    """The value a reader gets back from a token = the written value under the rounding relation of
-    its format spec.  Returns a fresh symbolic value constrained relative to the original."""
+    """The value a reader gets back from a token = the written value under the rounding relation of its format spec: a fresh
+    symbolic value within half a unit of the last written digit of the original.  The same token always reads back as the same
+    value, and a value that was itself read from a token of the same precision is written and read back unchanged (formatting a
+    number that has at most n digits with n digits reproduces it)."""
     sym, spec = hit
     c = ctx()
-    orig = sym.e
-    if spec in ('str', 'repr', '', 'd', 'r') or (sym.is_int and (spec in ('g', '.0f') or spec.endswith('d'))):
-        out = sym
+    cache = c.__dict__.setdefault('tokvals', {})
+    grid = c.__dict__.setdefault('grid', {})
+    key = id(hit)
+    if key in cache:
+        out = cache[key][1]
     else:
-        o = real(sym)
-        v = c.fresh('tok')
-        if spec.endswith('f') and '.' in spec:
-            nd = int(spec[spec.index('.') + 1:-1])
-            eps = z3.RealVal(Fraction(1, 2 * 10 ** nd))
-            c.add_side(z3.And(v - o <= eps, o - v <= eps))
-        elif spec.endswith(('g', 'e', 'E', 'G')):
-            nd = 6
-            if '.' in spec:
-                nd = int(spec[spec.index('.') + 1:-1])
-            if spec[-1] in 'eE':
-                nd += 1
-            rel = z3.RealVal(Fraction(1, 2 * 10 ** (nd - 1)))  # half unit in the last of nd sig. digits, relative bound
-            ab = z3.If(o >= 0, o, -o)
-            c.add_side(z3.And(v - o <= rel * ab, o - v <= rel * ab))
+        kind, nd = parse_spec(spec)
+        if kind == 'exact' or (sym.is_int and (spec in ('g', '.0f') or kind == 'f')):
+            out = sym
         else:
-            raise HarnessError('format spec %r not modelled for tokens' % spec)
-        out = Sym(v)
+            o = real(sym)
+            os_ = _simp(o)
+            if z3.is_const(os_) and os_.decl().kind() == z3.Z3_OP_UNINTERPRETED and grid.get(os_.decl().name()) == (kind, nd):
+                out = Sym(os_)
+            elif z3.is_rational_value(os_):
+                fv = float(os_.as_fraction())
+                out = Sym(rv(float(('%.' + str(nd) + ('f' if kind == 'f' else 'g')) % fv)))
+            else:
+                v = c.fresh('tok')
+                if kind == 'f':
+                    eps = z3.RealVal(Fraction(1, 2 * 10 ** nd))
+                    c.add_side(z3.And(v - o <= eps, o - v <= eps))
+                else:
+                    rel = z3.RealVal(Fraction(1, 2 * 10 ** (nd - 1)))  # half unit in the last of nd sig. digits, relative bound
+                    ab = z3.If(o >= 0, o, -o)
+                    c.add_side(z3.And(v - o <= rel * ab, o - v <= rel * ab))
+                grid[v.decl().name()] = (kind, nd)
+                out = Sym(v)
+        cache[key] = (hit, out)
     if as_int:
         return math.trunc(out) if not out.is_int else out
     return Sym(real(out)) if out.is_int else out
